@@ -35,6 +35,9 @@ CHECKS["C08"] = dict(cat="translation_validation", tech="symbolic execution of t
 CHECKS["C10"] = dict(cat="translation_validation", tech="symbolic execution of init_fn / integrate with one symbol per table entry: symbol identity per row for trainable routing, DAG equality (structural / congruence descent + z3) for set vs data_set vs make_trainable",
    text="For every (module, view, key) of the enumerated family the parameter/state arrays built by the traced init_fn must hold the trainable's symbol on exactly the selected rows and the table's own value elsewhere (decided by symbol identity, i.e. for all values), and the three ways of setting a value must give the same simulation DAG. write_trainables is a concrete side-check.",
    note="exact real arithmetic; grouping oracle = rows of the view grouped by controlled_by_param; write_trainables (pandas) not solver-decided", ref="6 C10")
+CHECKS["C12"] = dict(cat="translation_validation", tech="symbolic execution of traced integrate for assembled vs constituent modules; DAG equality under row-offset renaming (AC-normalised hash-consing, congruence descent, z3); concrete side-check of tables",
+   text="Each cell simulated inside a synapse-free network is compared, for all symbolic table entries, with the same cell simulated alone (symbols renamed by the row offset), for heterogeneous cells of different depth/channels and both orders; likewise one-branch cell vs branch, one-compartment branch vs compartment and sibling orders. Table preservation is a concrete side-check.",
+   note="exact real arithmetic; custom solvers refuse networks whose cells differ in per-level compartment counts (counted as refusal); jax.sparse network-vs-cell covered by C01", ref="6 C12")
 NA = {}
 checks = []
 for pid, c in CHECKS.items():
